@@ -55,12 +55,12 @@ def r1_purge_guard(ctx):
                 ctx.undecided("C04.R1", loc(fi, n), f"store to purging_queue of a non-literal value: {unparse(asg) if asg else '?'}")
         elif kind in ("aug", "substore", "submutcall"):
             ctx.undecided("C04.R1", loc(fi, n), f"unsupported writer form of purging_queue ({kind})")
-    ctx.floor("C04.R1.sites", len(appenders), 1)
     primary = f"{NOTIFY}.consider_purge"
     if primary not in appenders:
-        ctx.undecided("C04.R1", "-", "consider_purge no longer appends to purging_queue")
+        pf = repo.func(primary)
+        appenders[primary] = (pf, [])
     for q, (fi, nodes) in appenders.items():
-        bases = {base_name(n) for n in nodes}
+        bases = {base_name(n) for n in nodes} if nodes else {fi.params[0] if fi.params else None}
         if len(bases) != 1 or None in bases:
             ctx.undecided("C04.R1", loc(fi), "cannot name the State object the queue belongs to")
             continue
@@ -194,7 +194,9 @@ def r3_r4_flush(ctx):
     n_ok = 0
     for p in paths:
         if p.exit[0] != "return":
-            ctx.undecided("C04.R3", loc(fi), f"flush_queues does not return on the model state: {p.exit}")
+            ctx.violation("C04.R3", fi.qual, loc(fi), "flush completes on a consistent state",
+                          f"flush_queues ends with {p.exit[0]} {vkey(p.exit[1])[:60]} on a consistent model state (one queued fetch, one dataset to purge held by two hosts)")
+            n_ok += 1
             continue
         fetches = [e for e in p.effects if is_call(e, qual=f"{BR}.fetch")]
         purges = [e for e in p.effects if is_call(e, qual=f"{BR}.purge")]
@@ -218,6 +220,17 @@ def r3_r4_flush(ctx):
                           f"dataset {D2} is held by H1 and H2 but purge is commanded for {got}")
         else:
             ctx.ok("C04.R4", loc(fi), "purge commanded at every host holding the dataset")
+        h = p.heap
+        left = [k for k in ("state.ds2host",) if D2 in h[k]] + [f"host2ds[{vkey(x)}]" for x, m in h["state.host2ds"].items() if D2 in m] \
+            + [f"worker2ds[{vkey(x)}]" for x, m in h["state.worker2ds"].items() if D2 in m] + (["ds2worker"] if h["state.ds2worker"].get(D2) else [])
+        if h["state.purging_queue"] != [] or h["state.fetching_queue"] != {}:
+            ctx.violation("C04.R4", fi.qual, loc(fi), "queues drained",
+                          f"after the flush the queues are purging={vkey(h['state.purging_queue'])} fetching={vkey(h['state.fetching_queue'])}; a command left in a queue is re-issued "
+                          f"on the next flush for a dataset that is gone")
+        elif left:
+            ctx.violation("C04.R4", fi.qual, loc(fi), "purged dataset forgotten", f"the purged dataset is still recorded in {left}: it could be chosen as a transfer source although it was dropped")
+        else:
+            ctx.ok("C04.R4", loc(fi), "queues drained; the purged dataset is forgotten in every view")
         n_ok += 1
     ctx.floor("C04.R3.paths", n_ok, 1)
 
@@ -230,9 +243,11 @@ def r6_fetch_queue(ctx):
     for fi, n, kind, det in scan().attr_sites("fetching_queue"):
         if kind in ("substore", "store", "aug") or (kind == "mutcall" and det in ("update", "setdefault", "__setitem__")):
             writers.setdefault(fi.qual, (fi, []))[1].append(n)
-    ctx.floor("C04.R6.sites", len(writers), 1)
+    if f"{NOTIFY}.consider_fetch" not in writers:
+        cf = repo.func(f"{NOTIFY}.consider_fetch")
+        writers[cf.qual] = (cf, [])
     for q, (fi, nodes) in writers.items():
-        b = base_name(nodes[0])
+        b = base_name(nodes[0]) if nodes else (fi.params[0] if fi.params else None)
         if b is None:
             ctx.undecided("C04.R6", loc(fi), "cannot name the State object")
             continue
@@ -295,8 +310,7 @@ def r7_available_writers(ctx):
                               "a dataset is marked available outside the handling of a DatasetPublished event")
             else:
                 ctx.ok("C04.R7", loc(fi, n), f"{attr} marked available only in notify")
-    ctx.floor("C04.R7.sites", n_sites, 2)
-    # and in notify the key/host come from the event
+    # and in notify the key/host come from the event, and both views record it
     fi = repo.func(f"{NOTIFY}.notify")
     T = Atom("T")
     W = worker("H1")
@@ -304,6 +318,17 @@ def r7_available_writers(ctx):
     ip = Interp(repo, call_models={f"{NOTIFY}.is_last_output_of": lambda *a: False})
     paths = ip.explore(fi, env=_notify_state(T, ds("D1", "P1"), ds("D2", "P2"), W), args={"events": [ev]})
     for p in paths:
+        if p.exit[0] == "return":
+            h2d = p.heap["state.host2ds"]
+            d2h = p.heap["state.ds2host"]
+            got_h = [v for h, m in h2d.items() if vkey(h) == "`H1`" for k, v in m.items() if vkey(k) == "`DS`"]
+            got_d = [v for k, m in d2h.items() if vkey(k) == "`DS`" for h, v in m.items() if vkey(h) == "`H1`"]
+            if got_h != [st("available")] or got_d != [st("available")]:
+                ctx.violation("C04.R7", fi.qual, loc(fi), "publication recorded in both views",
+                              f"after DatasetPublished(DS) from a worker of H1: host2ds[H1][DS]={vkey(got_h)} ds2host[DS][H1]={vkey(got_d)}; both must be `available` "
+                              f"(transfer sources are chosen from ds2host, local availability from host2ds)")
+            else:
+                ctx.ok("C04.R7", loc(fi), "a publication is recorded as available in host2ds and ds2host")
         for e in p.effects:
             if e.kind == "store" and e.data.get("value") is st("available"):
                 tgt = e.data["target"]
